@@ -136,8 +136,9 @@ MANIFEST = {
                    "function (hook or public output)."),
     "level_note": ("Not modelled: nom parsers, ASN.1, authenticode, protobuf, hashing; a theorem cannot exhibit stack overflow or allocation growth. "
                    "Repaired after this check found them (c84671ba, 37a1e029): quartic / cubic walk of self-referential PE resource directories. "
-                   "Known findings (quadratic memory, patches in fixes/C11-1, C11-2): ELF section/symbol names, Mach-O symtab and chained-fixups names "
-                   "read without a length limit, Mach-O export names accumulated along a chain-shaped trie."),
+                   "Quadratic memory, repaired (daf5ea9e, 07806781; patches fixes/C11-1, C11-2): ELF section/symbol names, Mach-O symtab and "
+                   "chained-fixups names read without a length limit, Mach-O export names accumulated along a chain-shaped trie. All reproductions "
+                   "stay in the corpus as regression inputs and must meet the time and memory bounds."),
     "technique": "Coq proofs over an exact model of rva_to_offset and over capped-loop skeletons with source-generated caps + resource-limited differential tests in child processes",
     "design_ref": "DESIGN.md section 4, C11",
 }
